@@ -33,7 +33,14 @@ func coveredPatterns(stage int) []string {
 	if stage >= 2 {
 		for _, c := range curves {
 			ps = append(ps, "ecc/"+c+"/internal/fptower", "ecc/"+c)
-			for _, s := range []string{"kzg", "fr/fft", "fr/iop", "fr/polynomial", "fr/permutation", "fr/plookup", "fr/fri", "shplonk", "fflonk", "fr/mimc", "fr/pedersen", "ecdsa", "twistededwards", "twistededwards/eddsa"} {
+			for _, s := range []string{"kzg", "fr/fft"} {
+				ps = append(ps, "ecc/"+c+"/"+s)
+			}
+		}
+	}
+	if stage >= 3 { // NOT in the default check: loaded together, the join over all implementations of hash.Hash / io.Writer is too coarse; expect.txt has no reviewed lines for them
+		for _, c := range curves {
+			for _, s := range []string{"fr/iop", "fr/polynomial", "fr/permutation", "fr/plookup", "fr/fri", "shplonk", "fflonk", "fr/mimc", "fr/pedersen", "ecdsa", "twistededwards", "twistededwards/eddsa"} {
 				ps = append(ps, "ecc/"+c+"/"+s)
 			}
 		}
@@ -54,9 +61,10 @@ func die(f string, a ...any) {
 func main() {
 	repo := flag.String("repo", "/repo", "repository root")
 	out := flag.String("out", "", "output directory (lean/GnarkVerif/Gen)")
-	stage := flag.Int("stage", 3, "coverage stage 1..3")
+	stage := flag.Int("stage", 2, "coverage stage: 1 = bn254 tower + curve, 2 (default, reviewed in expect.txt) = tower + curve + kzg + fr/fft of the 7 pairing curves, 3 = + the argument systems, signatures, koalabear, hash, fiat-shamir, merkletree (unreviewed)")
 	expect := flag.String("expect", "", "expectation file (default: expect.txt next to the sources / executable)")
 	report := flag.String("report", "", "write a text report of the closed summaries of the exported functions")
+	dump := flag.String("dump", "", "debug: print the closed summary and the call atoms of every function whose name contains this string")
 	pats := flag.String("pkgs", "", "comma separated package patterns (relative to the module) instead of the stage list")
 	flag.Parse()
 	if *out == "" {
@@ -128,6 +136,16 @@ func main() {
 	A := newAnalysis(prog, own, covered)
 	A.run()
 	tAn := time.Since(t0)
+	if *dump != "" {
+		for _, fi := range A.bodies {
+			if strings.Contains(fi.name, *dump) {
+				fmt.Fprintf(os.Stderr, "DUMP %s params=%v writes=%v direct=%v\n", fi.name, fi.pnames, A.fmtRoots(fi, fi.writes), A.fmtRoots(fi, fi.dwrites))
+				for _, at := range fi.keptAtoms(true) {
+					fmt.Fprintf(os.Stderr, "   call %s %v  (callee writes %v)\n", at.callee.name, at.am, A.fmtRoots(at.callee, at.callee.writes))
+				}
+			}
+		}
+	}
 	A.emit(*out, exp, *report)
 	exp.checkUsed()
 	fmt.Fprintf(os.Stderr, "gvgoeff: %d packages from source (%d covered), %d functions analysed, %d emitted; load %.1fs, ssa %.1fs, analysis %.1fs, total %.1fs\n",
